@@ -521,6 +521,76 @@ def rule_i(ctx, idx, A):
     ctx.count("in_progress_marks", n_marks)
 
 
+def rule_j(ctx, idx, A):
+    ctx.rule(
+        "C01.j",
+        "Reference discovery terminates and sees every nested reference: utils.flatten loops over its argument, descends exactly into "
+        "list / tuple (or other containers that are not text) and yields everything else. A descent test that text satisfies "
+        "(`hasattr(x, '__iter__')`, an Iterable / Sequence check without excluding str) never ends on a string element - a one-character "
+        "string iterates to itself - so Program.run dies in the dependency scan and no command executes.",
+    )
+    um = idx.module_of("mpilot.utils")
+    fl = next((f for f in idx.funcs if f.module is um and f.name == "flatten" and f.parent is None), None)
+    if fl is None:
+        raise AnalysisError("C01.j: mpilot.utils.flatten vanished")
+    node = getattr(fl, "node_orig", None) or fl.node
+    con = "%s::descends-into-containers-only" % fl.key
+    rec_calls = [c for c in ast.walk(node) if isinstance(c, ast.Call) and isinstance(c.func, ast.Name) and c.func.id == "flatten"]
+    if not rec_calls:
+        raise AnalysisError("C01.j: flatten is not recursive any more; how nested lists are opened is outside this rule")
+    par = {}
+    for x in ast.walk(node):
+        for c in ast.iter_child_nodes(x):
+            par[id(c)] = x
+    TEXTY = {"builtins.str", "six.string_types", "six.text_type", "builtins.bytes", "six.binary_type", "builtins.object", "collections.abc.Iterable", "collections.Iterable", "collections.abc.Sequence",
+             "collections.Sequence", "collections.abc.Container", "collections.abc.Collection", "collections.abc.Sized", "collections.abc.Reversible", "typing.Iterable", "typing.Sequence"}
+    SAFE = {"builtins.list", "builtins.tuple", "builtins.set", "builtins.frozenset", "collections.deque", "builtins.dict", "collections.OrderedDict"}
+    n = 0
+    for rc in rec_calls:
+        q = rc
+        guard = None
+        while id(q) in par:
+            up = par[id(q)]
+            if isinstance(up, ast.If) and any(q is b or any(q is y for y in ast.walk(b)) for b in up.body):
+                guard = up.test
+                break
+            q = up
+        n += 1
+        if guard is None:
+            ctx.violate("C01.j", con, K.rel(fl), rc.lineno, "flatten calls itself on every element without a test: a number raises TypeError, a string recurses forever")
+            continue
+        conj = guard.values if isinstance(guard, ast.BoolOp) and isinstance(guard.op, ast.And) else [guard]
+        texty, excluded, unknown = None, False, None
+        for t in conj:
+            neg = False
+            while isinstance(t, ast.UnaryOp) and isinstance(t.op, ast.Not):
+                neg = not neg
+                t = t.operand
+            if isinstance(t, ast.Call) and isinstance(t.func, ast.Name) and t.func.id == "isinstance" and len(t.args) == 2:
+                cls_nodes = t.args[1].elts if isinstance(t.args[1], (ast.Tuple, ast.List)) else [t.args[1]]
+                quals = {idx.qualname(fl.module, cn, fl) or K.src(cn) for cn in cls_nodes}
+                if neg and quals & {"builtins.str", "six.string_types", "six.text_type"}:
+                    excluded = True
+                elif not neg and quals & TEXTY:
+                    texty = K.src(t)
+                elif not neg and not (quals <= SAFE):
+                    unknown = K.src(t)
+            elif isinstance(t, ast.Call) and isinstance(t.func, ast.Name) and t.func.id == "hasattr" and len(t.args) == 2 and isinstance(t.args[1], ast.Constant) and not neg:
+                if t.args[1].value in ("__iter__", "__getitem__", "__len__", "__contains__"):
+                    texty = K.src(t)
+                else:
+                    unknown = K.src(t)
+            elif not neg:
+                unknown = K.src(t)
+        if texty and not excluded:
+            ctx.violate("C01.j", con, K.rel(fl), guard.lineno, "flatten descends into whatever satisfies `%s`, which a string does: a one-character string iterates to itself, so a text element of a list argument recurses until RecursionError - Program.run dies while looking for references and no command executes" % texty)
+        elif unknown:
+            raise AnalysisError("C01.j: flatten descends under `%s`; cannot decide whether text (or another self-iterating value) satisfies it" % unknown)
+        else:
+            ctx.hold("C01.j", con, K.rel(fl), guard.lineno, "flatten descends into non-text containers only (`%s`)" % K.src(guard)[:60])
+    ctx.count("flatten_recursive_calls", n)
+
+
 def run(ctx, idx):
     A = K.anchors(idx)
     ctx.assume("Python semantics of attribute stores, properties and exceptions as modelled by the CFG builder")
@@ -536,5 +606,6 @@ def run(ctx, idx):
     rule_g(ctx, idx, A)
     rule_h(ctx, idx, A)
     rule_i(ctx, idx, A)
+    rule_j(ctx, idx, A)
     ctx.count("modules", len(idx.modules))
     ctx.count("functions", len(idx.funcs))
